@@ -279,6 +279,8 @@ class EFloatFormat(EncodableFormat):
                     ebits = bitmask(self.es)
                     mbits = bitmask(self.m)
                 case EFloatNanKind.NEG_ZERO:
+                    # NaN takes the place of -0: the sign bit is always set
+                    sbit = 1
                     ebits = 0
                     mbits = 0
                 case _:
